@@ -11,7 +11,10 @@ use std::sync::atomic::{AtomicU64, AtomicUsize, Ordering};
 use std::sync::Mutex;
 use std::time::Instant;
 
-pub const VERIF_ROOT: &str = "/verif";
+/// root of the verification tree (evidence/, replays/, known_findings.jsonl); `./check` exports it
+pub fn verif_root() -> String {
+    std::env::var("IVK_VERIF_ROOT").unwrap_or_else(|_| "/verif".to_string())
+}
 
 #[derive(Clone, Copy, PartialEq, Eq, Debug)]
 pub enum Tier {
@@ -221,7 +224,7 @@ pub struct KnownEntry {
 }
 
 pub fn load_known() -> Vec<KnownEntry> {
-    let path = format!("{}/known_findings.jsonl", VERIF_ROOT);
+    let path = format!("{}/known_findings.jsonl", verif_root());
     let mut out = Vec::new();
     if let Ok(text) = std::fs::read_to_string(&path) {
         for line in text.lines() {
@@ -277,7 +280,7 @@ pub fn finish(rep: &Reporter, tier: Tier, cov: Coverage, started: Instant) -> i3
     let sigs = rep.sigs.lock().unwrap();
     let mut exit = 0;
     let mut n_replay = 0;
-    let replay_dir = format!("{}/replays", VERIF_ROOT);
+    let replay_dir = format!("{}/replays", verif_root());
     let _ = std::fs::create_dir_all(&replay_dir);
     let mut unknown_sigs = 0u64;
     let mut known_hits: Vec<(String, u64)> = Vec::new();
@@ -336,7 +339,7 @@ pub fn finish(rep: &Reporter, tier: Tier, cov: Coverage, started: Instant) -> i3
         "wall_s": wall,
         "violations": total_viol,
     });
-    let ev_dir = format!("{}/evidence", VERIF_ROOT);
+    let ev_dir = format!("{}/evidence", verif_root());
     let _ = std::fs::create_dir_all(&ev_dir);
     // replay mode must not overwrite evidence
     if std::env::var("IVK_NO_EVIDENCE").is_err() {
@@ -520,8 +523,8 @@ pub fn install_abort_handler(prop: &str) {
     unsafe {
         let p = prop.as_bytes();
         ABORT_PROP[..p.len().min(7)].copy_from_slice(&p[..p.len().min(7)]);
-        let path = format!("{}/replays/{}-abort.json", VERIF_ROOT, prop);
-        let _ = std::fs::create_dir_all(format!("{}/replays", VERIF_ROOT));
+        let path = format!("{}/replays/{}-abort.json", verif_root(), prop);
+        let _ = std::fs::create_dir_all(format!("{}/replays", verif_root()));
         let b = path.as_bytes();
         ABORT_PATH[..b.len().min(127)].copy_from_slice(&b[..b.len().min(127)]);
         signal(6, on_abort as usize);
